@@ -9,7 +9,7 @@
 (*   Split    TRUE: every division of the dependencies into prerequisites / lookup     *)
 (*            keys / both is enumerated; FALSE: all dependencies are prerequisites     *)
 (*            (the functions only use pre \cup look and its emptiness)                 *)
-(*   InitKind "empty" | "seeded" (14 states) | "seeded3" | "seeded1" (subsets)           *)
+(*   InitKind "empty" | "seeded" (14 states) | "seeded3" | "seeded2" | "seeded1" (subsets)           *)
 EXTENDS AccQueue
 CONSTANTS HS, XS, MaxDeps, Split, InitKind, hacc
 
@@ -43,6 +43,9 @@ InitsMC ==
        {[xi |-> XiAt(E, {hacc}), th |-> ThWith(1 :> <<RecA>> @@ E :> <<RecB>>), tau |-> 0],
         [xi |-> XiAt(1, {hacc}), th |-> ThWith(2 :> <<RecC, RecA>>), tau |-> 0],
         [xi |-> XiAt(E, {hacc}), th |-> EmptyTh, tau |-> 1]}
+  ELSE IF InitKind = "seeded2" THEN
+       {[xi |-> XiAt(E, {hacc}), th |-> ThWith(1 :> <<RecA>> @@ E :> <<RecB>>), tau |-> 0],
+        [xi |-> XiAt(1, {hacc}), th |-> ThWith(2 :> <<RecC, RecA>>), tau |-> 0]}
   ELSE IF InitKind = "seeded1" THEN
        {[xi |-> XiAt(E, {hacc}), th |-> ThWith(1 :> <<RecA>>), tau |-> 0],
         [xi |-> XiAt(1, {hacc}), th |-> EmptyTh, tau |-> 0]}
